@@ -347,6 +347,12 @@ func (m *Message) GetClassAdRaw(ctx context.Context) (string, error) {
 func (m *Message) GetClassAdRawBody(ctx context.Context, numExprs int) (string, error) {
 	var b strings.Builder
 	for i := 0; i < numExprs; i++ {
+		// Every expression occupies at least one byte on the wire. A plaintext
+		// GetString returns "" at end of message, so without this check a bogus
+		// expression count would keep the loop running long after the input ended.
+		if err := m.ensureData(ctx, 1); err != nil {
+			return "", fmt.Errorf("message ended before expression %d (expected %d): %w", i, numExprs, err)
+		}
 		exprStr, err := m.GetString(ctx)
 		if err != nil {
 			return "", fmt.Errorf("failed to read expression %d (expected %d): %w", i, numExprs, err)
